@@ -67,8 +67,11 @@ CLAIMS = {
          "one-quote styles and every per-character choice among verbatim, simple escape, \\x, \\X, octal, \\u and \\U spellings the literal decodes to "
          "exactly that string (bytes: \\x/\\X/octal are single bytes, everything else its UTF-8); raw one-quote literals are verbatim; the escape "
          "table; general lemmas for the numeric escapes; invalid escapes reject; the same for the triple-quoted forms (the same bodies between three-quote "
-         "delimiters; raw triple-quoted literals verbatim for every body). Partial in this: the theorems are about decoding a token - that the lexer takes "
-         "each spelling as one token is the correspondence run. "
+         "delimiters; raw triple-quoted literals verbatim for every body). The whole path from source text is proved for every style - one-quote and "
+         "triple-quoted strings and bytes, raw one-quote and raw triple-quoted strings (C12_string_compiles / C12_bytes_compiles / C12_raw_compiles): the lexer "
+         "model takes the spelling as ONE STRING / BYTES token (scanner lemmas over escape sequences, for the short and the long scanner, raw and not), the "
+         "parser makes a literal of it, and compile returns the literal expression holding exactly the string / the bytes. Not covered by theorems: raw bytes "
+         "literals and raw bodies containing the quote character. "
          "The run checks, on the implementation, that each literal denotes the intended characters for every escape in every style and for random "
          "strings in all 16 styles, and compares with the model. Known finding K01: raw triple-quoted literals containing U+0000/U+10FFFF are "
          "rejected (ANTLR runtime wildcard)."),
